@@ -425,9 +425,9 @@ pub fn drain_probe<const N: usize>(g: &Sodg<N>, m: &Model, desc: bool) -> Vec<Fi
 
 /// The observable course of reading every listed vertex once on a copy:
 /// per read the returned bytes (or the panic) and the alive set afterwards.
-pub fn drain_trace<const N: usize>(g: &Sodg<N>, order: &[usize], desc: bool) -> Vec<String> {
-    let Some(gc) = exact_copy(g) else { return vec!["<no exact copy available>".to_string()] };
-    drain_trace_owned(gc, order, desc)
+/// None when no exact copy of `g` can be had (then nothing can be said here; C10 judges clone()).
+pub fn drain_trace<const N: usize>(g: &Sodg<N>, order: &[usize], desc: bool) -> Option<Vec<String>> {
+    Some(drain_trace_owned(exact_copy(g)?, order, desc))
 }
 
 /// The same on an object we own (it is consumed): no clone() involved.
@@ -459,6 +459,29 @@ pub fn raw_hex(h: &sodg::Hex) -> String {
     match h {
         sodg::Hex::Vector(v) => format!("Vector({v:?})"),
         sodg::Hex::Bytes(a, l) => format!("Bytes({a:?},{l})"),
+    }
+}
+
+/// C10: the clone of this state must be an exact copy (complete snapshots equal).
+pub fn clone_exactness_finding<const N: usize>(g: &Sodg<N>) -> Option<Finding> {
+    match guarded(|| g.clone()) {
+        Err(e) => Some(Finding::new("clone-inexact", &["C10"], format!("clone() of this state panicked: {e}"))),
+        Ok(c) => {
+            let (a, b) = (guarded(|| c.verif_snapshot()).ok()?, guarded(|| g.verif_snapshot()).ok()?);
+            if a == b {
+                return None;
+            }
+            let what = if a.next_v != b.next_v {
+                format!("the allocator position is {} in the clone and {} in the original", a.next_v, b.next_v)
+            } else if a.stores != b.stores {
+                format!("the unread counters are {:?} in the clone and {:?} in the original", a.stores, b.stores)
+            } else if a.branches != b.branches {
+                format!("the member lists are {:?} in the clone and {:?} in the original", a.branches, b.branches)
+            } else {
+                "a vertex slot differs".to_string()
+            };
+            Some(Finding::new("clone-inexact", &["C10"], format!("clone() of this state is not an exact copy: {what}")))
+        }
     }
 }
 
@@ -603,8 +626,7 @@ pub fn check_transition<const N: usize>(
                 }
                 if let Some(g0) = g0 {
                     for desc in [false, true] {
-                        let before = drain_trace(g0, &m0.keys(), desc);
-                        let after = drain_trace(g1, &m0.keys(), desc);
+                        let (Some(before), Some(after)) = (drain_trace(g0, &m0.keys(), desc), drain_trace(g1, &m0.keys(), desc)) else { break };
                         if before != after {
                             let i = before.iter().zip(after.iter()).position(|(a, b)| a != b).unwrap_or(before.len().min(after.len()));
                             out.push(Finding::new(
@@ -1152,7 +1174,9 @@ fn expand_state<const N: usize>(
             None => {
                 if !clone_reported {
                     clone_reported = true;
-                    out.findings.push((idx, None, Finding::new("clone-inexact", &["C10"], "clone() of this state panics or is not an exact copy (complete snapshots differ)".to_string())));
+                    if let Some(f) = clone_exactness_finding(g0) {
+                        out.findings.push((idx, None, f));
+                    }
                 }
                 match replay_both::<N>(cfg, &history_of(hist_ctx.0, hist_ctx.1, hist_ctx.2, idx)) {
                     Ok((g, _)) => g,
@@ -1171,6 +1195,17 @@ fn expand_state<const N: usize>(
         if !fs.is_empty() {
             for f in fs {
                 out.findings.push((idx, Some(*op), f));
+            }
+            // C19: a call the model cannot follow is still compared across configurations
+            // (a panic under one N and not under another is a configuration-dependent answer)
+            if !cfg.probes.lockstep.is_empty() || cfg.probes.rerun > 0 {
+                let mut h = history_of(hist_ctx.0, hist_ctx.1, hist_ctx.2, idx);
+                h.push(*op);
+                let mut lf = vec![];
+                probes::lockstep_probe::<N>(cfg, &|| h.clone(), &mut lf, &mut out.counters);
+                for f in lf {
+                    out.findings.push((idx, Some(*op), f));
+                }
             }
             continue; // model and implementation disagree: do not expand
         }
